@@ -338,4 +338,122 @@ theorem quad_hasDerivAt (a b c t : ℝ) : HasDerivAt (fun s : ℝ => a + b * s +
   simp only [zero_mul, add_zero, mul_zero] at this
   exact this
 
+/-! ## statements moved from Props/C19.lean (helpers / structural facts, pass 5) -/
+
+/-- **Locality / independence of the other points** (hardening class 7): the value at time `v` only reads the four
+points `idx-1 … idx+2` around its segment `idx = searchIdx N v`; two point sequences that agree there give the
+same sample — whatever else is in the sequence (or in the rest of a batch). (`idx + 2 ≤ N` holds for every grid time.) -/
+theorem evalAt_congr (N : Nat) (p p' : Nat → ℝ) (v : ℝ) (hle : searchIdx N v + 2 ≤ N)
+    (h : ∀ j, searchIdx N v ≤ j + 1 → j ≤ searchIdx N v + 2 → p j = p' j) : evalAt N p v = evalAt N p' v := by
+  set i := searchIdx N v with hi
+  have e0 : p i = p' i := h i (by omega) (by omega)
+  have e1 : p (i + 1) = p' (i + 1) := h (i + 1) (by omega) (by omega)
+  have hs0 : slope N p i = slope N p' i := by
+    unfold slope
+    simp only [diff1_real]
+    by_cases hz : i = 0
+    · simp only [hz, if_true]
+      rw [hz] at e0 e1; simp only [Nat.zero_add] at e1; rw [e0, e1]
+    · have hne : ¬ i + 1 = N := by omega
+      have em : p (i - 1) = p' (i - 1) := h (i - 1) (by omega) (by omega)
+      have ei : i - 1 + 1 = i := by omega
+      simp only [hz, hne, if_false, ei]
+      rw [e0, e1, em]
+  have hs1 : slope N p (i + 1) = slope N p' (i + 1) := by
+    unfold slope
+    simp only [diff1_real]
+    have hz : ¬ i + 1 = 0 := by omega
+    by_cases hl : i + 1 + 1 = N
+    · have e2 : N - 2 = i := by omega
+      simp only [hz, hl, if_false, if_true, e2]
+      rw [e0, e1]
+    · have e2 : p (i + 1 + 1) = p' (i + 1 + 1) := h (i + 1 + 1) (by omega) (by omega)
+      simp only [hz, hl, if_false, Nat.add_sub_cancel]
+      rw [e0, e1, e2]
+  unfold evalAt
+  simp only [← hi, e0, e1, hs0, hs1]
+
+/-- with `extrapolate=True` there are `(N+1)·k + 1` poses; without, `(N-3)·k+1` and fewer than 4 poses are refused -/
+theorem bspline_length (eps : ℝ) (N kk : Nat) (interval : ℝ) (ex : Bool) (P : Nat → SE3 ℝ) :
+    bspline eps N kk interval ex P =
+      if ex then some (bsplineCore eps (N + 4) kk interval (pad N P))
+      else if N < 4 then none else some (bsplineCore eps N kk interval P) := rfl
+
+/-- **A segment only reads its own four control poses** (hardening classes 4/7: no dependence on the rest of the
+sequence, of the batch, or on earlier calls — the model is a pure function of exactly these arguments). -/
+theorem bsplineAt_congr (eps : ℝ) (P P' : Nat → SE3 ℝ) (i : Nat) (u : ℝ)
+    (h : ∀ j, i ≤ j → j ≤ i + 3 → P j = P' j) : bsplineAt eps P i u = bsplineAt eps P' i u := by
+  unfold bsplineAt
+  rw [h i (by omega) (by omega), h (i + 1) (by omega) (by omega), h (i + 2) (by omega) (by omega),
+    h (i + 3) (by omega) (by omega)]
+
+/-- **The underlying cubic B-spline basis** (pass 3): the differences of the cumulative weights,
+`b₀ = 1 - w₁`, `b₁ = w₁ - w₂`, `b₂ = w₂ - w₃`, `b₃ = w₃`, are the uniform cubic B-spline basis functions; they are
+non-negative on `[0,1]` and sum to one (partition of unity) — for every segment, hence every number of control poses. -/
+theorem bw_partition_of_unity (u : ℝ) (h0 : 0 ≤ u) (h1 : u ≤ 1) :
+    (1 - bw1 u = (1 - u) ^ 3 / 6) ∧ (bw1 u - bw2 u = (4 - 6 * u ^ 2 + 3 * u ^ 3) / 6) ∧
+    (bw2 u - bw3 u = (1 + 3 * u + 3 * u ^ 2 - 3 * u ^ 3) / 6) ∧ (bw3 u = u ^ 3 / 6) ∧
+    0 ≤ 1 - bw1 u ∧ 0 ≤ bw1 u - bw2 u ∧ 0 ≤ bw2 u - bw3 u ∧ 0 ≤ bw3 u ∧
+    (1 - bw1 u) + (bw1 u - bw2 u) + (bw2 u - bw3 u) + bw3 u = 1 := by
+  rw [bw1_cubic, bw2_cubic, bw3_cubic]
+  simp only
+  have hu : 0 ≤ 1 - u := by linarith
+  refine ⟨by ring, by ring, by ring, by ring, ?_, ?_, ?_, ?_, by ring⟩
+  · have : 1 - (5 / 6 + 1 / 2 * u + -1 / 2 * u ^ 2 + 1 / 6 * u ^ 3) = (1 - u) ^ 3 / 6 := by ring
+    rw [this]; positivity
+  · have : 5 / 6 + 1 / 2 * u + -1 / 2 * u ^ 2 + 1 / 6 * u ^ 3 - (1 / 6 + 1 / 2 * u + 1 / 2 * u ^ 2 + -1 / 3 * u ^ 3)
+        = (1 + 3 * (1 - u) * (1 + u * (1 - u))) / 6 := by ring
+    rw [this]
+    have : 0 ≤ u * (1 - u) := mul_nonneg h0 hu
+    have : 0 ≤ (1 - u) * (1 + u * (1 - u)) := mul_nonneg hu (by linarith)
+    linarith
+  · have : 1 / 6 + 1 / 2 * u + 1 / 2 * u ^ 2 + -1 / 3 * u ^ 3 - (0 + 0 * u + 0 * u ^ 2 + 1 / 6 * u ^ 3)
+        = (1 + 3 * u + 3 * u ^ 2 * (1 - u)) / 6 := by ring
+    rw [this]
+    have : 0 ≤ u ^ 2 * (1 - u) := mul_nonneg (sq_nonneg u) hu
+    linarith
+  · have : (0 : ℝ) + 0 * u + 0 * u ^ 2 + 1 / 6 * u ^ 3 = u ^ 3 / 6 := by ring
+    rw [this]; positivity
+
+/-- the cumulative weights are ordered `1 ≥ w₁ ≥ w₂ ≥ w₃ ≥ 0` on `[0,1]` -/
+theorem bw_ordered (u : ℝ) (h0 : 0 ≤ u) (h1 : u ≤ 1) : bw3 u ≥ 0 ∧ bw2 u ≥ bw3 u ∧ bw1 u ≥ bw2 u ∧ 1 ≥ bw1 u := by
+  obtain ⟨_, _, _, _, a, b, c, d, _⟩ := bw_partition_of_unity u h0 h1
+  exact ⟨d, by linarith, by linarith, by linarith⟩
+
+/-- first and second derivatives of the cumulative weights (every `u`) -/
+theorem bw_hasDerivAt (u : ℝ) :
+    HasDerivAt bw1 ((1 - u) ^ 2 / 2) u ∧ HasDerivAt bw2 ((1 + 2 * u - 2 * u ^ 2) / 2) u ∧ HasDerivAt bw3 (u ^ 2 / 2) u ∧
+    HasDerivAt (fun v : ℝ => (1 - v) ^ 2 / 2) (u - 1) u ∧ HasDerivAt (fun v : ℝ => (1 + 2 * v - 2 * v ^ 2) / 2) (1 - 2 * u) u ∧
+    HasDerivAt (fun v : ℝ => v ^ 2 / 2) u u := by
+  refine ⟨?_, ?_, ?_, ?_, ?_, ?_⟩
+  · rw [bw1_cubic]; convert cubic_hasDerivAt (5 / 6) (1 / 2) (-1 / 2) (1 / 6) u using 1; ring
+  · rw [bw2_cubic]; convert cubic_hasDerivAt (1 / 6) (1 / 2) (1 / 2) (-1 / 3) u using 1; ring
+  · rw [bw3_cubic]; convert cubic_hasDerivAt 0 0 0 (1 / 6) u using 1; ring
+  · have := quad_hasDerivAt (1 / 2) (-1) (1 / 2) u
+    convert this using 1
+    · funext v; ring
+    · ring
+  · have := quad_hasDerivAt (1 / 2) 1 (-1) u
+    convert this using 1
+    · funext v; ring
+    · ring
+  · have := quad_hasDerivAt 0 0 (1 / 2) u
+    convert this using 1
+    · funext v; ring
+    · ring
+
+/-- **C² joins of the weight functions** (pass 3). Write segment `i` with the four weights `(w₁,w₂,w₃,0)(u)` on the relative
+motions `(δ₁,δ₂,δ₃,δ₄)` and segment `i+1` with `(1,w₁,w₂,w₃)(u)` on the *same* four motions (`bsplineAt_as_four`,
+`bsplineAt_succ_as_four`). At the join the two weight 4-vectors agree in value, first and second derivative:
+`(1, 5/6, 1/6, 0)`, `(0, 1/2, 1/2, 0)`, `(0, -1, 1, 0)` — for every join, i.e. every number of control poses. -/
+theorem bw_join_C2 :
+    (bw1 (1 : ℝ) = 1 ∧ bw2 (1 : ℝ) = bw1 0 ∧ bw3 (1 : ℝ) = bw2 0 ∧ (0 : ℝ) = bw3 0) ∧
+    (((1 : ℝ) - 1) ^ 2 / 2 = 0 ∧ (1 + 2 * (1 : ℝ) - 2 * 1 ^ 2) / 2 = (1 - (0 : ℝ)) ^ 2 / 2
+      ∧ (1 : ℝ) ^ 2 / 2 = (1 + 2 * (0 : ℝ) - 2 * 0 ^ 2) / 2 ∧ (0 : ℝ) = 0 ^ 2 / 2) ∧
+    (((1 : ℝ) - 1 = 0) ∧ (1 - 2 * (1 : ℝ) = 0 - 1) ∧ ((1 : ℝ) = 1 - 2 * 0) ∧ ((0 : ℝ) = 0)) := by
+  obtain ⟨a1, b1, c1⟩ := bw_one
+  obtain ⟨a0, b0, c0⟩ := bw_zero
+  refine ⟨⟨a1, by rw [b1, a0], by rw [c1, b0], c0.symm⟩, ⟨by norm_num, by norm_num, by norm_num, by norm_num⟩,
+    ⟨by norm_num, by norm_num, by norm_num, rfl⟩⟩
+
 end PP.Spline
